@@ -40,6 +40,7 @@
 (*   leaf_recommit j t d same, the oracle is re-committed (cap replaced)   *)
 (*   leaf_kernel t d     opened values of polynomials 2,3 at position t    *)
 (*                       changed inside the kernel of the alpha-combination*)
+(*   leaf_kernel_recommit  same, oracles re-committed: invisible (accept)  *)
 (*   init_path l=oracle t         a sibling of the path of oracle l at t   *)
 (*   layer_path l t=coset         a sibling of the path in layer l         *)
 (*   coset_edit l t d    opened coset value (flat index t of layer l)      *)
@@ -90,9 +91,12 @@ Claims ==
      IN IF D.k \in {"claim_edit", "claim_adaptive"} /\ D.l = b /\ D.j = j THEN Add(y, D.d) ELSE y]]
 
 (* ---- initial oracles: committed and opened tables per polynomial (tree order) ---- *)
-Committed ==
+Committed(alpha) ==
   [p \in 1..NP |-> LET v == EvalOnLayer(sc.polys[p], 0)
-                   IN IF D.k = "leaf_recommit" /\ D.j = p THEN [v EXCEPT ![D.t + 1] = Add(@, D.d)] ELSE v]
+                   IN CASE D.k = "leaf_recommit" /\ D.j = p -> [v EXCEPT ![D.t + 1] = Add(@, D.d)]
+                        [] D.k = "leaf_kernel_recommit" /\ p = 3 -> [v EXCEPT ![D.t + 1] = Add(@, D.d)]
+                        [] D.k = "leaf_kernel_recommit" /\ p = 2 -> [v EXCEPT ![D.t + 1] = Sub(@, Mul(alpha, D.d))]
+                        [] OTHER -> v]
 Opened(cm, alpha) ==
   [p \in 1..NP |->
      CASE D.k = "leaf_edit" /\ D.j = p -> [cm[p] EXCEPT ![D.t + 1] = Add(@, D.d)]
@@ -196,7 +200,7 @@ VFold(opn, l, beta) ==
 
 (* ---- which query positions read the edited element ---- *)
 PosClass(i) ==      \* i 0-based
-  CASE D.k \in {"leaf_edit", "leaf_recommit", "leaf_kernel", "init_path"} -> IF i = D.t THEN "hit" ELSE "miss"
+  CASE D.k \in {"leaf_edit", "leaf_recommit", "leaf_kernel", "leaf_kernel_recommit", "init_path"} -> IF i = D.t THEN "hit" ELSE "miss"
     [] D.k \in {"coset_edit", "coset_recommit"} ->
          LET cur == i \div 2 ^ SumAr(D.l)  ar == 2 ^ AR[D.l + 1]
          IN IF cur = D.t THEN "hitq" ELSE IF cur \div ar = D.t \div ar THEN "hits" ELSE "miss"
@@ -247,7 +251,7 @@ CommitStep ==
   /\ ph = "start"
   /\ \E a \in Alphas :
      \E cl \in {Claims} :
-     \E cm \in {Committed} :
+     \E cm \in {Committed(a)} :
      \E opn \in {Opened(cm, a)} :
      \E vc \in {CombineTable(opn, cl, a)} :
      \E pc0 \in {IF D.k = "claim_adaptive" THEN Interp(vc, 0) ELSE HonestLdeCoeffs(a)} :
@@ -291,7 +295,7 @@ LastStep ==
 Next == CommitStep \/ MidStep \/ LastStep
 
 (* ---- obligations ---- *)
-Class == CASE D.k \in {"honest", "degree_n", "degree_n2"} -> "accept"
+Class == CASE D.k \in {"honest", "degree_n", "degree_n2", "leaf_kernel_recommit"} -> "accept"
            [] D.k \in {"claim_adaptive", "high_degree", "high_degree2"} -> "partial"
            [] OTHER -> "reject"
 Done == ph = "done"
